@@ -8,7 +8,6 @@ from common import Rule, finish
 from mirutil import Body, op_local
 from mono import Mono
 
-ANCHOR = "jaq::real_main"
 PERSIST = r"^tempfile::file::NamedTempFile::<F>::persist(_noclobber)?$"
 RUN = r"^jaq::filter::run$"
 WRITE = r"^jaq_fmts::write::(formats::)?write$"
@@ -24,26 +23,15 @@ def agg_for_local(body, local):
     return None
 
 
-def run(facts, tier):
-    t0 = time.time()
-    rules = []
-    mb = facts.mir_fn(ANCHOR)
-    if mb is None:
-        r = Rule("W18.0", "anchor", floor=1)
-        r.missing_anchor(ANCHOR)
-        return finish("C18", "other", [r.finish()], t0, tier, "anchor missing", [])
-    b = Body(mb)
-
+def in_place_rules(facts, b, anchor, w1, w2, w3, w6):
     persists = b.find_calls(PERSIST)
     runs = b.find_calls(RUN)
     temps = b.find_calls(TEMPFILE_IN)
-
     # ---- W18.1 rename only on the success edge of the run
-    w1 = Rule("W18.1", "the rename over the original (NamedTempFile::persist) is dominated by the Continue edge of the `?` applied to the result of the filter run whose output went to that temporary file", floor=1)
     if not persists:
-        w1.missing_anchor("call to tempfile::NamedTempFile::persist in jaq::real_main")
+        w1.missing_anchor("call to tempfile::NamedTempFile::persist in " + anchor)
     if not runs:
-        w1.missing_anchor("call to jaq::filter::run in jaq::real_main")
+        w1.missing_anchor("call to jaq::filter::run in " + anchor)
     tmp_locals = {}
     for p in persists:
         ok = False
@@ -83,10 +71,8 @@ def run(facts, tier):
         w1.examined(("persist", b.bbs[p]["t"]["sp"]), True, {"persist_at": b.bbs[p]["t"]["sp"], "guarded_by_run": ok})
         if not ok:
             w1.violate("persist-unguarded", "the temporary file is renamed over the input although the run for that file may have failed or not happened: " + "; ".join(why or ["no dominating run"]), where=b.bbs[p]["t"]["sp"])
-    rules.append(w1.finish())
 
     # ---- W18.2 output goes to the temp file
-    w2 = Rule("W18.2", "inside the closure handed to that run every value is written to NamedTempFile::as_file_mut() of the captured temporary file (not to the input path, not to stdout)", floor=1)
     for p, (r, srcs) in tmp_locals.items():
         for l in b.arg_locals(r):
             a = agg_for_local(b, l)
@@ -112,10 +98,8 @@ def run(facts, tier):
                 w2.examined((cdef, cb.bbs[wbb]["t"]["sp"]), True, {"closure": cdef, "write_at": cb.bbs[wbb]["t"]["sp"], "sink_is_tempfile": good})
                 if not good:
                     w2.violate("sink", f"in-place output in `{cdef}` is not written to the temporary file's handle", where=cb.bbs[wbb]["t"]["sp"])
-    rules.append(w2.finish())
 
     # ---- W18.3 same directory, same path
-    w3 = Rule("W18.3", "the temporary file is created in the parent directory of the input path and renamed to that same path (rename within one file system)", floor=3)
     loads = b.find_calls(r"^jaq_fmts::read::load_file$")
     pathnew = [c for c in b.find_calls(r"^std::path::Path::new$") if any(b.node_dominates(c, t) for t in temps)]
     if not temps:
@@ -150,10 +134,8 @@ def run(facts, tier):
         w3.examined(("load", b.bbs[c]["t"]["sp"]), True)
         if not good:
             w3.violate("load-path", "the file that is read is not the path that is replaced", where=b.bbs[c]["t"]["sp"])
-    rules.append(w3.finish())
 
     # ---- W18.6 permissions preserved
-    w6 = Rule("W18.6", "the permission bits are read from the input path before the rename and re-applied to it after the rename, on every successful path", floor=2)
     metas = [c for c in b.find_calls(r"^std::fs::(metadata|symlink_metadata)$") if set(b.arg_locals(c)) & S]
     setps = [c for c in b.find_calls(r"^std::fs::set_permissions$") if set(b.arg_locals(c, 0)) & S]
     for p in persists:
@@ -176,7 +158,39 @@ def run(facts, tier):
         w6.examined(("set-after", b.bbs[p]["t"]["sp"]), True, {"set_permissions_after_persist_on_all_success_paths": follows})
         if not follows:
             w6.violate("set-after", "after a successful rename the original permission bits are not re-applied on every path (or the result of persist is not checked)", where=b.bbs[p]["t"]["sp"])
-    rules.append(w6.finish())
+
+
+
+def not_repl(body):
+    return not (body["def"].startswith("jaq::funs::repl") or (body.get("root") or "").startswith("jaq::funs::repl"))
+
+
+def in_place_bodies(facts):
+    """The driver functions that rename a temporary file over something: found by what they do (a call of
+    NamedTempFile::persist), not by name, so that extracting the per-file work into a helper keeps the anchor."""
+    out = []
+    for crate, body in facts.all_mir():
+        if crate == "jaq" and not body.get("test") and not_repl(body) and Body(body).find_calls(PERSIST):
+            out.append(body)
+    return out
+
+
+def run(facts, tier):
+    t0 = time.time()
+    rules = []
+    anchors = in_place_bodies(facts)
+    if not anchors:
+        r = Rule("W18.0", "anchor", floor=1)
+        r.missing_anchor("a function of the command-line driver that calls tempfile::NamedTempFile::persist")
+        return finish("C18", "other", [r.finish()], t0, tier, "anchor missing", [])
+    w1 = Rule("W18.1", "the rename over the original (NamedTempFile::persist) is dominated by the Continue edge of the `?` applied to the result of the filter run whose output went to that temporary file", floor=1)
+    w2 = Rule("W18.2", "inside the closure handed to that run every value is written to NamedTempFile::as_file_mut() of the captured temporary file (not to the input path, not to stdout)", floor=1)
+    w3 = Rule("W18.3", "the temporary file is created in the parent directory of the input path and renamed to that same path (rename within one file system)", floor=3)
+    w6 = Rule("W18.6", "the permission bits are read from the input path before the rename and re-applied to it after the rename, on every successful path", floor=2)
+    for mb in anchors:
+        in_place_rules(facts, Body(mb), mb["def"], w1, w2, w3, w6)
+    rules += [w1.finish(), w2.finish(), w3.finish(), w6.finish()]
+    ANCHORS = {mb["def"] for mb in anchors} | {mb.get("root") for mb in anchors if mb.get("root")}
 
     # ---- W18.5 / W18.7 who-may-call inside the CLI crate
     w5 = Rule("W18.5", "the temporary file is never kept, leaked or detached from its RAII guard, and is not wrapped in a buffered writer whose Drop would swallow a failing final flush", floor=20)
@@ -186,7 +200,7 @@ def run(facts, tier):
         if crate != "jaq" or body["def"].startswith("jaq::funs::repl") or (body.get("root") or "").startswith("jaq::funs::repl"):
             continue
         bb = Body(body)
-        in_place_fn = body["def"] == ANCHOR or body.get("root") == ANCHOR
+        in_place_fn = body["def"] in ANCHORS or body.get("root") in ANCHORS
         for i, t in bb.calls():
             c = Body.callee(t) or ""
             w5.examined((body["def"], c, t["sp"]), bool(LEAK.search(c) or BUF.search(c)))
